@@ -1257,6 +1257,9 @@ func runCombTab(c *core.Ctx) {
 		c.NoAnchor(nil, "NewReqFiltersEventLimitMatcher")
 		return
 	}
+	// (the constructor may delegate to a variant with more parameters, handing its filter list on as
+	// the first argument: `return NewReqFiltersEventLimitMatcherWithLimits(filters, ReqFilterLimits{})`)
+	ctor = listCtorBody(P, ctor)
 	okCtor := false
 	an.Instrs(ctor, func(in ssa.Instruction) {
 		st, isSt := in.(*ssa.Store)
@@ -1303,6 +1306,58 @@ func runCombTab(c *core.Ctx) {
 			}
 		}
 	}
+	// a member's limit adjusted after construction (`ret[i].f.Limit = limits.apply(f.Limit)`, relay-side
+	// default / maximum): an explicit limit stays a limit — the adjusting function answers nil ("no
+	// limit") only for a filter that has none; turning an explicit 0 into nil makes the filter, and with
+	// it the list, never exhausted
+	an.Instrs(ctor, func(in ssa.Instruction) {
+		st, isSt := in.(*ssa.Store)
+		if !isSt || !strings.HasSuffix(an.PathOf(st.Addr), ".f.Limit") {
+			return
+		}
+		c.CountSites(1)
+		call := an.CallOf(st.Val)
+		var h *ssa.Function
+		pi := -1
+		if call != nil {
+			h = an.StaticCallee(&call.Call)
+			for i, a := range call.Call.Args {
+				if strings.HasSuffix(an.PathOf(a), ".Limit") {
+					pi = i
+				}
+			}
+		}
+		if h == nil || !P.InModule(h) || pi < 0 || pi >= len(h.Params) {
+			c.Bad(nil, fname(c, ctor), "limit-kept", P.Pos(st.Pos()), "a member's limit is overwritten with "+clip(an.PathOf(st.Val), 80)+", which is not derived from the filter's own limit")
+			return
+		}
+		par := h.Params[pi]
+		var bad []string
+		for _, rb := range an.ReturnBlocks(h) {
+			ret := an.LastInstr(rb).(*ssa.Return)
+			paths, okP := an.PathsTo(h, rb, 512)
+			if !okP {
+				bad = append(bad, "too many paths")
+				break
+			}
+			for _, p := range paths {
+				if !an.Feasible(p) || !an.IsNilConst(resolveRet(an.ReturnValues(ret)[0], p)) {
+					continue
+				}
+				argNil := false
+				for _, cd := range p.Conds() {
+					cd = an.NormCond(cd)
+					if b, isB := cd.V.(*ssa.BinOp); isB && b.X == ssa.Value(par) && an.IsNilConst(b.Y) && (b.Op == token.EQL) == cd.True {
+						argNil = true
+					}
+				}
+				if !argNil {
+					bad = append(bad, "returns nil at "+P.Pos(ret.Pos())+" on a path that has not found the filter's limit absent")
+				}
+			}
+		}
+		c.Check(len(bad) == 0, nil, fname(c, h), "limit-kept", P.Pos(h.Pos()), "the adjusted limit is nil only for a filter without limit", h.Name()+" can turn an explicit limit into 'no limit': "+strings.Join(bad, "; ")+" — a filter with \"limit\":0 is then never exhausted, and neither is a list containing it")
+	})
 	c.Check(okCtor, nil, fname(c, ctor), "one-per-filter", P.Pos(ctor.Pos()), "member i is built from filter i, for every filter", "the list matcher is not built with exactly one member per filter (member i from filter i)")
 }
 
@@ -1348,4 +1403,29 @@ func ptrCloneHelper(g *ssa.Function) bool {
 		n++
 	}
 	return n > 0
+}
+
+// listCtorBody: fn, or — when fn does nothing but return the result of one module function called
+// with fn's first parameter as first argument — that function.
+func listCtorBody(P *core.Program, fn *ssa.Function) *ssa.Function {
+	for depth := 0; depth < 2; depth++ {
+		rbs := an.ReturnBlocks(fn)
+		if len(rbs) != 1 || len(fn.Params) == 0 {
+			return fn
+		}
+		rv := an.ReturnValues(an.LastInstr(rbs[0]).(*ssa.Return))
+		if len(rv) != 1 {
+			return fn
+		}
+		call, ok := an.Unwrap(rv[0]).(*ssa.Call)
+		if !ok {
+			return fn
+		}
+		g := an.StaticCallee(&call.Call)
+		if g == nil || !P.InModule(g) || len(call.Call.Args) == 0 || call.Call.Args[0] != ssa.Value(fn.Params[0]) || len(g.Params) == 0 {
+			return fn
+		}
+		fn = g
+	}
+	return fn
 }
